@@ -99,7 +99,9 @@ CFG = {
         "Swat4.C07.expand_total",
         "Swat4.C07.facts_ok",
         "Swat4.C07.details_facts_ok",
-        "Swat4.C07.detailsOf_total",
+        # detailsOf_total is no longer audited: DetailsProbe.Outcome has exactly the three constructors it lists, so it holds of any
+        # function into that type (proof = cases); it stays in the file because probe_classes cites it. probe_total stays: ProbeResult
+        # does have panic/hang constructors and the proof rests on runQuery_classes (only its details-stage half is by construction).
         "Swat4.C07.probe_classes",
         "Swat4.C07.probe_total",
         "Swat4.C07.accepted_sound",
@@ -112,6 +114,14 @@ CFG = {
         "Swat4.C07.accepted_ratios",
         "Swat4.C07.accepted_players",
         "Swat4.C07.accepted_objectives",
+        # completeness of the details stage (a stage that rejects everything fails these)
+        "Swat4.C07.details_cover_ok",
+        "Swat4.C07.unmarshal_iff_reads",
+        "Swat4.C07.detailsOf_complete",
+        "Swat4.C07.detailsOf_ok_iff",
+        "Swat4.C07.detailsOf_errValidate_iff",
+        "Swat4.C07.details_params_nodup",
+        "Swat4.C07.detailsOf_encode",
     ],
     "shards": (8, 16),
     "nontrivial": _c07_nontrivial,
@@ -153,7 +163,7 @@ CFG = {
     "manifest": {
         "text": "Lean theorems over the model of gs1.go (every index/slice expression a checked operation with outcome panic, the scan loop on fuel with outcome hang): feed_total/feed_terminates — processing any datagram after any received prefix neither panics nor loops; feed_cases/runQuery_classes — every datagram sequence ends in response, error (incomplete/malformed) or timeout; empty_datagram; per-function totality (inspect_total, collect_total, parse_total, expand_total); collect_within_cap — the buffer capacity is the sum over all inspected fragments. The model is tied to the code by running the real gs1.Query against a scripted UDP responder on hostile sequences and comparing result class and decoded content; panics are recovered and reported, latency beyond timeout+slack is reported as late. "
                 "Post-query stage of the details prober (Model/Details.lean = details.NewDetailsFromParams + Details.Validate over the generated struct schemas, composed with runQuery as DetailsProbe.probe): "
-                "probe_classes/probe_total - every datagram sequence ends in a details value, err-timeout, err-query, err-parse or err-validate, never panic or hang; detailsOf_total; "
+                "probe_classes/probe_total - every datagram sequence ends in a details value, err-timeout, err-query, err-parse or err-validate, never panic or hang (the details stage's own totality, detailsOf_total, is true by the type of its outcome and is not audited); detailsOf_complete/detailsOf_ok_iff/detailsOf_errValidate_iff - completeness: a response whose entries parse field by field (unmarshal_iff_reads) to a value satisfying DetailsSpec.accepted is accepted with exactly that value, and the stage returns d iff NewDetailsFromParams yields d and accepted d (details_cover_ok: every validate tag of the generated schemas is backed by a constraint of the spec); detailsOf_encode - every accepted value of the Go types' shape is returned on its own encoding; "
                 "accepted_sound/probe_ok_accepted - a returned details value satisfies the independently written DetailsSpec.accepted (host port > 0, required strings non-empty, gte=0 counters >= 0, "
                 "team in 0..2, co-op status in 0..4, objective status in 0..2, both ratio fields in RatioSpec), with accepted_hostport/_ratios/_players/_objectives as field-by-field readings; "
                 "ratioOk_iff_spec - the model's ValidateRatio accepts exactly RatioSpec (empty, or number/number under strconv.Atoi's sign rules); ratio_rejects_two_slashes/ratio_tag_rejects_two_slashes - "
